@@ -377,7 +377,7 @@ fn calls_for(group: &str, d: &Desc) -> Vec<Call> {
                             want = s / tot;
                             if wf { want *= s / (n - 1) as f64; }
                         }
-                        match r.get(NAMES[x]) { Some(got) if *got == want => {}, other => return Err(format!("closeness of {} is {:?}, the formula over minimal incoming distances gives {}", NAMES[x], other, want)) }
+                        match r.get(NAMES[x]) { Some(got) if (*got - want).abs() <= 1e-12 * (1.0 + want.abs()) => {}, other => return Err(format!("closeness of {} is {:?}, the formula over minimal incoming distances gives {}", NAMES[x], other, want)) }
                     }
                     Ok(())
                 });
